@@ -221,6 +221,8 @@ pub struct Restored {
     pub queues: Vec<u32>,
     /// queues restored with known worker resources
     pub queues_with_worker_resources: Vec<u32>,
+    /// what the real core holds after it was given the tasks: task -> (dependencies, unfinished ones)
+    pub core_deps: BTreeMap<Tid, (Vec<Tid>, u32)>,
 }
 
 pub fn restore_file(path: &Path) -> Result<Restored, String> {
@@ -278,6 +280,20 @@ pub fn restore_file(path: &Path) -> Result<Restored, String> {
         for ts in out.task_submits {
             server.server_ref().add_new_tasks(ts).map_err(|e| format!("add_new_tasks error: {e:?}"))?;
         }
+        let core_deps: BTreeMap<Tid, (Vec<Tid>, u32)> = server
+            .snapshot()
+            .tasks
+            .iter()
+            .map(|t| {
+                let mut deps: Vec<Tid> = t.deps.iter().map(|d| conv::tid(*d)).collect();
+                deps.sort_unstable();
+                let unfinished = match t.state {
+                    tako::verif::TaskStateSnapshot::Waiting { unfinished_deps } => unfinished_deps,
+                    _ => u32::MAX,
+                };
+                (conv::tid(t.id), (deps, unfinished))
+            })
+            .collect();
         let mut queues: Vec<u32> = out.queues.iter().map(|q| q.queue_id).collect();
         queues.sort_unstable();
         let mut queues_with_worker_resources: Vec<u32> = out.queues.iter().filter(|q| q.worker_resources.is_some()).map(|q| q.queue_id).collect();
@@ -292,6 +308,7 @@ pub fn restore_file(path: &Path) -> Result<Restored, String> {
             uid: out.server_uid,
             queues,
             queues_with_worker_resources,
+            core_deps,
         })
     }));
     match r {
@@ -409,6 +426,23 @@ fn check_against_fold(cut: usize, f: &Folded, r: &Restored, rep: &mut Rep) {
         let want_deps: Vec<Tid> = ft.deps.iter().map(|d| (t.0, *d)).filter(|d| pending.contains_key(d)).collect();
         if h.1 != want_deps {
             rep.v("C10", "J3-dependencies", format!("cut {cut}: task {t:?}: remaining dependencies should be {want_deps:?}, handed {:?}", h.1));
+        }
+        // ... and the scheduler must really wait for them (it forgets a dependency on a task it
+        // has not been given yet, so the order of the hand-over matters)
+        match r.core_deps.get(t) {
+            Some((deps, unfinished)) => {
+                if !want_deps.is_empty() {
+                    rep.c("pending_tasks_with_deps_checked_in_the_core", 1);
+                }
+                if deps != &want_deps || *unfinished != want_deps.len() as u32 {
+                    rep.v(
+                        "C10",
+                        "J3-scheduler-lost-dependencies",
+                        format!("cut {cut}: task {t:?} should wait for {want_deps:?}; after the hand-over the scheduler holds {deps:?} for it and counts {unfinished} unfinished"),
+                    );
+                }
+            }
+            None => rep.v("C10", "J3-scheduler-lost-dependencies", format!("cut {cut}: task {t:?} was handed over but the scheduler does not know it")),
         }
         if !ft.deps.is_empty() {
             rep.c("pending_tasks_with_deps", 1);
